@@ -3,6 +3,7 @@ import itertools
 
 from hypothesis import strategies as st
 from metapype.eml import rule as R
+from metapype.eml import validate
 from metapype.eml.exceptions import ChildNotAllowedError
 from metapype.model.node import Node
 
@@ -42,8 +43,10 @@ def names_of(rn):
 class Ctxt:
     def __init__(self, rn):
         self.rn = rn
-        self.rule = get_rule(rn)
         self.parent = build.make_node(rn, word=())
+        # through the public accessor where an element maps to the rule (the object a caller would hold)
+        self.mapped = R.node_mappings.get(self.parent.name) == rn
+        self.rule = R.get_rule(self.parent.name) if self.mapped else get_rule(rn)
         self.kids = {}
         self.names = names_of(rn)
         self.rank = {n: i for i, n in enumerate(lang.spec_names(R.rules_dict[rn][1]))}
@@ -56,7 +59,19 @@ class Ctxt:
                 k = self.kids[a] = Node(a)
             ch.append(k)
         self.parent.children = ch
-        return self.rule.child_insert_index(self.parent, Node(c))
+        rule = self.rule   # one object for the whole enumeration of this rule (a caller-held Rule)
+        try:
+            return rule.child_insert_index(self.parent, Node(c))
+        finally:
+            # an ordinary editing session validates the parent between edits; whatever validation remembers about
+            # this parent must not influence the next suggestion (the next case re-uses the parent with other children)
+            try:
+                if self.mapped:
+                    validate.node(self.parent, [])
+                else:
+                    rule.validate_rule(self.parent, [])
+            except Exception:  # noqa
+                pass
 
 
 def judge(cx, e, c):
